@@ -3,6 +3,8 @@ import RV.Proofs.IntegrateStatus
 import RV.Proofs.IntegrateSplit
 import RV.Proofs.IntegrateAdaptive
 import RV.Proofs.IntegrateRestore
+import RV.Proofs.IntegratePause
+import RV.Proofs.IntegrateIAS15
 import RV.Gen.C08Status
 /-
   C08 — integrate() honours its time, step-size and status contract.
@@ -121,7 +123,7 @@ theorem c08_fixed_dt_restored_on_every_exit (step : StepFn K) (hfix : IsFixed st
       by_cases h : s0.t < tmax
       · simp [h, copysign_pos]
       · simp [h, copysign_neg]
-    rcases env 0 with ⟨c, u, e, n, sg, em, nn⟩
+    rcases env 0 with ⟨c, u, e, n, sg, em, nn, se⟩
     cases u <;> cases e <;> cases n <;> simp [hcs]
   obtain ⟨st, hstc, hs⟩ := hstart
   have inv : RInv tmax (dirOf s0.t tmax * |s0.dt|) (dirOf s0.t tmax)
@@ -166,7 +168,7 @@ theorem c08_noop_when_target_is_now (step : StepFn K) (env : Nat → Flags) (h0 
       simp [this, hx]; exact not_lt.mp hx
   have hce : checkExit { s0 with dtLastDone := 0, status := -1 } s0.t false s0.dt (env 0) =
       .ret { s0 with dtLastDone := 0, status := 0 } s0.dt := by
-    rw [checkExit_run _ s0.t s0.dt (env 0) (Or.inl rfl) h0.2.2.2.2.2.1 h0.2.2.2.2.2.2]
+    rw [checkExit_run _ s0.t s0.dt (env 0) (Or.inl rfl) h0.1.2.2.2.2.2.1 h0.1.2.2.2.2.2.2]
     have h1 : s0.t * copysign 1 s0.dt ≤ (s0.t + s0.dt) * copysign 1 s0.dt := by
       have := hc s0.dt; nlinarith
     by_cases hex : s0.exactFinish = 1
@@ -236,9 +238,11 @@ theorem c08_fixed_no_exact_finish (step : StepFn K) (hfix : IsFixed step) (env :
 
 /-! ### adaptive integrators, exact_finish_time = 1 -/
 
-/-- Adaptive integrator (IAS15, BS; `IsAdaptive`: proposals of at least `δ > 0`, a step advances by
-    `dt_last_done ≤` the step it was called with and `≥ δ` unless it is the complete — possibly
-    shrunk — step, whole-step rejections only among the first `R` calls), `exact_finish_time = 1`,
+/-- Adaptive integrator (IAS15, BS; `IsAdaptive`, for requested steps up to `|tmax − t₀|`: proposals of
+    at least `δ > 0` — except right after a complete requested step that was itself shorter than `δ` —,
+    a step advances by `dt_last_done ≤` the step it was called with and `≥ δ` unless it is the complete
+    — possibly shrunk — step, whole-step rejections only among the first `R` calls; for IAS15 this is
+    derived from the code of its step-size controller: `c08_ias15_progress`), `exact_finish_time = 1`,
     `|dt₀| ≥ δ`, `|tmax − t₀| ≤ N·δ`: the LAST_STEP → RUNNING fallback cannot go on forever — the call
     returns within `N + R + 1` passes of the loop with status SUCCESS and `t = tmax` or
     `|t − tmax| < tscale tmax` (= `1e-12·|tmax|`, or `1e-12` when that is below `1e-200`); `dt` is
@@ -249,7 +253,7 @@ theorem c08_adaptive_exact_finish (step : StepFn K) (env : Nat → Flags) (henv 
     (s0 : Sim K) (tmax δ : K) (R N : Nat)
     (hst : s0.status ≠ stPAUSED ∧ s0.status ≠ stSCREENSHOT) (hex : s0.exactFinish = 1)
     (hne : tmax ≠ s0.t) (hδ : 0 < δ) (hdt : δ ≤ |s0.dt|)
-    (had : IsAdaptive step (dirOf s0.t tmax) δ R) (hN : |tmax - s0.t| ≤ N * δ) :
+    (had : IsAdaptive step (dirOf s0.t tmax) δ R |tmax - s0.t|) (hN : |tmax - s0.t| ≤ N * δ) :
     ∀ fuel, N + R + 1 ≤ fuel → ∃ s', integrate step env fuel s0 tmax false = .done s' ∧
       s'.status = stSUCCESS ∧ (s'.t = tmax ∨ |s'.t - tmax| < tscale tmax) ∧
       δ ≤ s'.dt * dirOf s0.t tmax ∧
@@ -265,11 +269,12 @@ theorem c08_adaptive_exact_finish (step : StepFn K) (env : Nat → Flags) (henv 
   have inv : AInv tmax (dirOf s0.t tmax) δ
       { s0 with dt := dirOf s0.t tmax * |s0.dt|, dtLastDone := 0, status := -1 }
       (dirOf s0.t tmax * |s0.dt|) :=
-    ⟨Or.inl rfl, hex, by simpa [hdsg] using hdt, by simpa using (dirOf_mul_pos hne).le,
+    ⟨Or.inl rfl, hex, by simpa [hdsg] using lt_of_lt_of_le hδ hdt, Or.inl (by simpa [hdsg] using hdt),
+     by simpa using (dirOf_mul_pos hne).le,
      fun _ => by simpa using dirOf_mul_pos hne, Or.inl rfl, by rw [hdsg]; exact hdt⟩
   obtain ⟨s', lf', hl, h0, hw, hlf, hx, hh⟩ :=
-    loop_adaptive step env henv tmax (dirOf s0.t tmax) δ R hsg hδ had (N + R) N 0 _ _ inv
-      (by simpa [dirOf_abs hne] using hN) (by omega) fuel hfuel
+    loop_adaptive step env henv tmax (dirOf s0.t tmax) δ R hsg hδ |tmax - s0.t| had (N + R) N 0 _ _ inv
+      (by simpa [dirOf_abs hne] using hN) (by simp [dirOf_abs hne]) (by omega) fuel hfuel
   refine ⟨finish s' lf', integrate_of_loop_done step env fuel s0 _ s' tmax _ lf' false hs hl, ?_, ?_, ?_, ?_⟩
   · simp [finish, hx, h0, Status.code]
   · simpa [finish, hx] using hw
@@ -277,6 +282,64 @@ theorem c08_adaptive_exact_finish (step : StepFn K) (env : Nat → Flags) (henv 
   · intro b hb
     have : b ∈ s'.hist := by simpa [finish, hx] using hb
     simpa using hh b this
+
+/-! ### IAS15: the progress hypothesis derived from the code of its step-size controller -/
+
+/-- One `reb_simulation_step` of IAS15 (`stepIAS15`: the retry loop `while(!reb_integrator_ias15_step(r))`
+    around the controller `ias15Ctl` = integrator_ias15.c:615-646 — `min_dt` clamp with `copysign`,
+    rejection below a quarter of the step tried, growth limited to a factor four), `min_dt > 0`, an
+    error estimate that asks for a step in the direction of integration (`raw`, arbitrary otherwise),
+    called with a step in direction `sg` of size at most `min_dt·4^fuel`: the step is completed within
+    `fuel` attempts; time advances by `dt_last_done`, which points in the direction of integration, is
+    no longer than the step asked for and — unless it IS the step asked for — at least `min_dt` long;
+    the step proposed for the next call points the same way and is at least `min_dt` or exactly four
+    times the step just done (the latter only after a requested step shorter than `min_dt/4`). -/
+theorem c08_ias15_progress (minDt sg : K) (raw : Nat → Nat → K → K) (fuel : Nat)
+    (hsg : sg = 1 ∨ sg = -1) (hm : 0 < minDt) (hf : 1 ≤ fuel)
+    (hraw : ∀ k j d, 0 < d * sg → 0 < raw k j d * sg)
+    (k : Nat) (t dt dld : K) (hdt : 0 < dt * sg) (hB : dt * sg ≤ minDt * 4 ^ fuel) :
+    let o := stepIAS15 minDt raw fuel k t dt dld
+    o.t = t + o.dld ∧ 0 < o.dld * sg ∧ o.dld * sg ≤ dt * sg ∧ (o.dld = dt ∨ minDt ≤ o.dld * sg) ∧
+    0 < o.dt * sg ∧ (minDt ≤ o.dt * sg ∨ (o.dt * sg = 4 * (o.dld * sg) ∧ o.dld = dt ∧ dt * sg < minDt)) := by
+  obtain ⟨n, rfl⟩ : ∃ n, fuel = n + 1 := ⟨fuel - 1, by omega⟩
+  obtain ⟨done, new, e, r1, r2, r3, r4, r5⟩ :=
+    ias15Attempts_spec minDt sg (raw k) hsg hm (hraw k) n (n + 1) 0 dt hdt hB (le_refl _)
+  simp only [stepIAS15, e]
+  refine ⟨trivial, r1, r2, r3, r4, ?_⟩
+  by_cases hlt : minDt ≤ new * sg
+  · exact Or.inl hlt
+  · right
+    rcases r5 with h | h
+    · exact absurd h hlt
+    · have hsmall : done * sg < minDt := by
+        have := not_le.mp hlt
+        nlinarith
+      rcases r3 with h3 | h3
+      · exact ⟨h, h3, by rw [← h3]; exact hsmall⟩
+      · exact absurd h3 (not_le.mpr hsmall)
+
+/-- IAS15 with `min_dt > 0` and `exact_finish_time = 1`: the call returns — no assumption about the
+    dynamics beyond the error estimate pointing in the direction of integration.  `|dt₀| ≥ min_dt`,
+    `|tmax − t₀| ≤ N·min_dt` and `≤ min_dt·4^fuel` (retry budget of one step): SUCCESS within `N + 1` loop
+    passes, `t = tmax` or inside the 1e-12 window, `dt` left at a full step (`≥ min_dt`), time monotone. -/
+theorem c08_ias15_exact_finish (minDt : K) (raw : Nat → Nat → K → K) (fuel : Nat) (env : Nat → Flags)
+    (henv : ∀ k, (env k).Clear) (s0 : Sim K) (tmax : K) (N : Nat)
+    (hst : s0.status ≠ stPAUSED ∧ s0.status ≠ stSCREENSHOT) (hex : s0.exactFinish = 1)
+    (hne : tmax ≠ s0.t) (hm : 0 < minDt) (hdt : minDt ≤ |s0.dt|) (hf : 1 ≤ fuel)
+    (hraw : ∀ k j d, 0 < d * dirOf s0.t tmax → 0 < raw k j d * dirOf s0.t tmax)
+    (hN : |tmax - s0.t| ≤ N * minDt) (hB : |tmax - s0.t| ≤ minDt * 4 ^ fuel) :
+    ∀ loopFuel, N + 1 ≤ loopFuel →
+      ∃ s', integrate (stepIAS15 minDt raw fuel) env loopFuel s0 tmax false = .done s' ∧
+        s'.status = stSUCCESS ∧ (s'.t = tmax ∨ |s'.t - tmax| < tscale tmax) ∧
+        minDt ≤ s'.dt * dirOf s0.t tmax ∧
+        ∀ b ∈ s'.hist, b ∈ s0.hist ∨ MonoBeat tmax (dirOf s0.t tmax) b := by
+  intro loopFuel hlf
+  have had := isAdaptive_ias15 minDt (dirOf s0.t tmax) raw fuel (dirOf_cases _ _) hm hf hraw
+  have had' : IsAdaptive (stepIAS15 minDt raw fuel) (dirOf s0.t tmax) minDt 0 |tmax - s0.t| := by
+    intro k t dt dld h1 h2
+    exact had k t dt dld h1 (le_trans h2 hB)
+  exact c08_adaptive_exact_finish (stepIAS15 minDt raw fuel) env henv s0 tmax minDt 0 N hst hex hne hm hdt
+    had' hN loopFuel (by omega)
 
 /-! ### splitting an integration (exact_finish_time ≠ 1) -/
 
@@ -318,10 +381,68 @@ theorem c08_split_overshoot_reverses :
     A.t = 10 ∧ B.t = 0 ∧ B.dt = -10 ∧ B.stepsDone = 2 ∧ C.t = 10 ∧ C.dt = 10 ∧ C.stepsDone = 1 := by
   decide +kernel
 
+/-! ### PAUSED / SINGLE_STEP machinery: key presses from another thread -/
+
+/-- Pausing, resuming, single-stepping (arrow-down) and 50-stepping (page-down) any number of times
+    does not change what is integrated.  `ctl k` are the keys of server.c:346-375 / display.c delivered
+    while the integrator is at step boundary `k`: `(ctl k).1` before `reb_check_exit` is entered (between
+    the heartbeat and the SINGLE_STEP countdown), `(ctl k).2` after the countdown, before / during the
+    PAUSED wait loop.  For EVERY step function, every `tmax` (also INFINITY), either value of
+    exact_finish_time and every exit-condition schedule without SIGINT: if the call with key presses
+    returns at all (i.e. every pause is eventually followed by a key that lets it go on), then the call
+    without them returns with the same fuel, and the two final states agree in `t`, `dt`,
+    `dt_last_done`, step count, number of synchronize calls, status, and in the whole sequence of step
+    calls (time before, `dt` used, time after).  Keys that land in the middle of the time logic of
+    `reb_check_exit` are a data race of the C code and are outside the model. -/
+theorem c08_pause_resume_transparent (step : StepFn K) (env : Nat → Flags) (ctl : Nat → List Ctl × List Ctl)
+    (s0 : Sim K) (tmax : K) (inf : Bool) (fuel : Nat)
+    (hst : s0.status ≠ stPAUSED ∧ s0.status ≠ stSCREENSHOT) (hsig : ∀ k, (env k).sigint = false)
+    (sP : Sim K) (hP : integrateP step env ctl fuel s0 tmax inf = .done sP) :
+    ∃ s', integrate step env fuel s0 tmax inf = .done s' ∧
+      s'.t = sP.t ∧ s'.dt = sP.dt ∧ s'.dtLastDone = sP.dtLastDone ∧ s'.stepsDone = sP.stepsDone ∧
+      s'.syncs = sP.syncs ∧ s'.status = sP.status ∧ stepSeq s' = stepSeq sP := by
+  have hst' : s0.status ≠ -3 ∧ s0.status ≠ -4 := by simpa [Status.code] using hst
+  obtain ⟨a1, a2, a3, a4, a5⟩ := start_status s0 tmax (env 0) hst'
+  have hτ : (start s0 tmax (env 0)).1.status = -1 ∨ (start s0 tmax (env 0)).1.status = -2 ∨
+      1 ≤ (start s0 tmax (env 0)).1.status := by
+    rw [a1]
+    cases hsc : (env 0).first.stepCode with
+    | none => simp
+    | some x => simp; right; right; exact stepCode_pos _ _ hsc
+  have hrel : Rel (start s0 tmax (env 0)).1 (start s0 tmax (env 0)).1 :=
+    ⟨rfl, rfl, rfl, rfl, rfl, rfl, rfl, rfl, rfl, srel_self _ (by omega)⟩
+  unfold integrateP at hP
+  simp only at hP
+  cases hl : loopP step env ctl tmax inf fuel 0 (start s0 tmax (env 0)).1 (start s0 tmax (env 0)).2 with
+  | mk o lfP =>
+    rw [hl] at hP
+    cases o with
+    | blocked b => simp at hP
+    | outOfFuel b => simp at hP
+    | done s1 =>
+      simp only [Outcome.done.injEq] at hP
+      obtain ⟨s', hloop, hr⟩ := loopP_rel step env ctl tmax inf hsig fuel 0 _ _ _ hrel hτ s1 lfP hl
+      obtain ⟨r1, r2, r3, r4, r5, r6, r7, r8, r9, r10⟩ := hr
+      have hstat : s1.status = s'.status := by
+        -- both loops ended: neither status is negative, so they are equal
+        have h1 : ¬ s1.status < 0 := by
+          intro hneg
+          cases fuel with
+          | zero => simp [loopP] at hl
+          | succ n => exact loopP_done_nonneg step env ctl tmax inf (n + 1) 0 _ _ s1 lfP hl hneg
+        rcases r10 with ⟨_, hrun⟩ | ⟨h, _⟩
+        · exact absurd hrun.1 h1
+        · exact h
+      refine ⟨finish s' lfP, integrate_of_loop_done step env fuel s0 _ s' tmax _ lfP inf rfl hloop, ?_⟩
+      rw [← hP]
+      simp only [finish, r4]
+      split_ifs <;> simp [r1, r2, r3, r5, r8, hstat, stepSeq] <;>
+        first | exact (by simpa [stepSeq] using r9.symm) | skip
+
 /-! ### status: the first step boundary at which an exit condition holds, in the code's order
 
   `Flags.exitCode` is the priority list NO_PARTICLES > GENERIC_ERROR > SIGINT > ENCOUNTER > ESCAPE >
-  USER > COLLISION (the later writer in rebound.c:653-738, 741-775, 857-861 wins).  Both theorems
+  USER > COLLISION > error raised inside the step (the later writer in rebound.c:653-738, 741-775, 857-861 wins).  Both theorems
   hold for EVERY step function (fixed or adaptive), every `tmax` (also `INFINITY`) and either value of
   exact_finish_time. -/
 
@@ -372,13 +493,13 @@ theorem c08_status_first_boundary (step : StepFn K) (env : Nat → Flags) (s0 : 
   obtain ⟨hc1, hc2⟩ := exitCode_some _ _ _ _ hc
   have h0 := hclear 0 (by omega)
   have hfirst : (env 0).first.stepCode = none := by
-    obtain ⟨h1, h2, h3, h4, h5, h6, h7⟩ := h0
+    obtain ⟨⟨h1, h2, h3, h4, h5, h6, h7⟩, h8⟩ := h0
     simp [Flags.first, Flags.stepCode, h2, h3, h4]
   rw [hfirst] at a1
   simp only [Option.getD_none] at a1
   obtain ⟨s', lf', hl, hres⟩ := loop_first_firing step env tmax inf c k 0 (start s0 tmax (env 0)).1
     (start s0 tmax (env 0)).2 (Or.inl a1)
-    (by intro j hj; rw [Nat.zero_add]; exact ⟨(hclear j hj).2.2.2.2.2.1, (hclear j hj).2.2.2.2.2.2⟩)
+    (by intro j hj; rw [Nat.zero_add]; exact ⟨(hclear j hj).1.2.2.2.2.2.1, (hclear j hj).1.2.2.2.2.2.2⟩)
     (by intro j _ hj; rw [Nat.zero_add]; exact stepCode_none_of_clear _ (hclear j hj))
     (by rw [Nat.zero_add, a3, a4]; exact hc1) hc2 fuel hfuel
   refine ⟨finish s' lf', integrate_of_loop_done step env fuel s0 _ s' tmax _ lf' inf rfl hl, ?_⟩
@@ -435,9 +556,9 @@ example : IsFixed (stepHalves : StepFn ℚ) := isFixed_halves
 example : ({ } : Flags).Clear := by simp [Flags.Clear]
 
 /-- an adaptive step function satisfying `IsAdaptive` (proposes 1/2, always does the whole step) -/
-example : IsAdaptive (fun _ t dt _ => ⟨t + dt, 1 / 2, dt⟩ : StepFn ℚ) 1 (1 / 2) 0 := by
-  intro k t dt dld h
-  refine ⟨by norm_num, Or.inr ⟨rfl, h, le_refl _, Or.inr rfl⟩⟩
+example : IsAdaptive (fun _ t dt _ => ⟨t + dt, 1 / 2, dt⟩ : StepFn ℚ) 1 (1 / 2) 0 100 := by
+  intro k t dt dld h _
+  refine ⟨by norm_num, Or.inr ⟨rfl, h, le_refl _, Or.inr rfl, Or.inl (by norm_num)⟩⟩
 
 /-- `t₀ = 0, dt = 1/10, tmax = 1`, exact finish, `t += dt/2` twice: 10 steps, `t = 1`, `dt = 1/10` -/
 example :
@@ -451,6 +572,25 @@ example :
     let s0 : Sim ℚ := { demoSim with exactFinish := 1 }
     let r := (integrate stepOnce (fun _ => {}) 20 s0 (-3) false).sim
     r.t = -3 ∧ r.dt = -10 ∧ r.stepsDone = 1 ∧ r.status = 0 := by
+  decide +kernel
+
+/-- the IAS15 controller without forces (`dt_new = dt_done/0.25`), `min_dt = 1/2`, backwards from `t = 0` to
+    `-10` with `dt = 1/100`: five growing steps 1/100 … 256/100 and a last one cut to fit, ends exactly, `dt` left at the last full step -/
+example :
+    let s0 : Sim ℚ := { demoSim with dt := 1 / 100, exactFinish := 1 }
+    let r := (integrate (stepIAS15 (1 / 2) ias15RawFree 8) (fun _ => {}) 50 s0 (-10) false).sim
+    r.t = -10 ∧ r.status = 0 ∧ r.stepsDone = 6 ∧ r.dt = -256 / 100 := by
+  decide +kernel
+
+/-- pause at boundary 2, one single step, 50-step key, space twice: same end state as without keys -/
+example :
+    let ctl : Nat → List Ctl × List Ctl := fun k => if k = 2 then ([.space], [.step1]) else
+      if k = 3 then ([], [.step50]) else if k = 7 then ([.space, .step1], [.space]) else ([], [])
+    let s0 : Sim ℚ := { demoSim with dt := 1, exactFinish := 1 }
+    let r := (integrateP stepOnce (fun _ => {}) ctl 200 s0 (25 / 2) false).sim
+    let u := (integrate stepOnce (fun _ => {}) 200 s0 (25 / 2) false).sim
+    r.t = 25 / 2 ∧ r.stepsDone = 13 ∧ r.status = 0 ∧ r.dt = 1 ∧ u.t = r.t ∧ u.stepsDone = r.stepsDone ∧
+      stepSeq u = stepSeq r := by
   decide +kernel
 
 /-- escape at the third boundary beats a user stop at the same boundary; later flags are not seen -/
